@@ -562,6 +562,8 @@ impl Database {
         // This will reduce the lock time of map. It won't wait the notifyt time, we don't need to
         // wait for the update_watchers to release the key
         let (value, version) = {
+            #[cfg(nundb_verif)]
+            crate::verif_hooks::yield_point("map.write");
             let mut db = self.map.write().unwrap();
             match i32::from_str_radix(
                 &db.get(&key.to_string())
@@ -602,6 +604,8 @@ impl Database {
 
     pub fn list_keys(&self, pattern: &String, list_system_keys: bool) -> Vec<String> {
         let query_function = get_function_by_pattern(&pattern);
+        #[cfg(nundb_verif)]
+        crate::verif_hooks::yield_point("map.read");
         let mut keys: Vec<String> = {
             self.map
                 .read()
@@ -632,6 +636,8 @@ impl Database {
     }
 
     fn notify_watchers(&self, key: String, value: String, version: i32) {
+        #[cfg(nundb_verif)]
+        crate::verif_hooks::yield_point("watchers.read");
         let watchers = self.watchers.map.read().unwrap();
         match watchers.get(&key) {
             Some(senders) => {
@@ -672,6 +678,8 @@ impl Database {
                     if let Some(value) = self.get_value(key.clone()) {
                         // If deleted before the key is in disk remove direct from memory
                         if value.state == ValueStatus::New {
+                            #[cfg(nundb_verif)]
+                            crate::verif_hooks::yield_point("map.write");
                             let mut db = self.map.write().unwrap();
                             db.remove(&key);
                         } else {
@@ -688,6 +696,8 @@ impl Database {
                         }
                     }
                 } // Release the lock
+                #[cfg(nundb_verif)]
+                crate::verif_hooks::yield_point("watchers.write");
                 let mut watchers = self.watchers.map.write().unwrap();
                 match watchers.get_mut(&key) {
                     Some(senders) => {
@@ -709,6 +719,8 @@ impl Database {
     }
 
     pub fn get_value(&self, key: String) -> Option<Value> {
+        #[cfg(nundb_verif)]
+        crate::verif_hooks::yield_point("map.read");
         let db = self.map.read().unwrap();
         if let Some(value) = db.get(&key.to_string()) {
             Some(Value {
@@ -735,6 +747,8 @@ impl Database {
         opp_id: u64,
     ) {
         {
+            #[cfg(nundb_verif)]
+            crate::verif_hooks::yield_point("map.write");
             let mut db = self.map.write().unwrap();
             db.insert(
                 key.clone(),
@@ -751,6 +765,8 @@ impl Database {
     }
 
     pub fn watch_key(&self, key: &String, sender: &Sender<String>) -> Response {
+        #[cfg(nundb_verif)]
+        crate::verif_hooks::yield_point("watchers.write");
         let mut watchers = self.watchers.map.write().unwrap();
         let mut senders: Vec<Sender<String>> = match watchers.get(key) {
             Some(watchers_vec) => watchers_vec.clone(),
